@@ -165,6 +165,9 @@ pub fn on_client_packet(w: &mut World, conn: usize, idx: usize, raw: &[u8]) {
     let pkt = w.conns[conn].packets[idx].pkt.clone();
     // C14 outbound limit (everything after CONNACK)
     if let Some(max) = w.conns[conn].max_packet_size {
+        if w.conns[conn].connack_consumed && raw.len() == max as usize {
+            w.probe("outbound_exactly_at_max");
+        }
         if w.conns[conn].connack_consumed && raw.len() > max as usize {
             w.violate(
                 "C14",
@@ -815,9 +818,14 @@ fn on_retained_class(w: &mut World, conn: usize, idx: usize, raw: &[u8], pkt: &P
                 r.kind == ReqKind::Pub && r.qos == 2 && r.epoch == w.epoch && !r.invalidated && r.phase == Phase::Release && r.tx_by_conn.get(&conn).copied().unwrap_or(0) > 0
             });
             let rel = if rel { "with-qos2-awaiting-pubcomp" } else { "all-awaiting-first-ack" };
+            let sig = if w.conns[conn].resume_overcommitted && via == "replay" {
+                "receive-maximum-exceeded/replay-of-more-in-flight-publishes-than-the-new-receive-maximum".to_string()
+            } else {
+                format!("receive-maximum-exceeded/{resumed}/{via}/{rel}")
+            };
             w.violate(
                 "C06",
-                format!("receive-maximum-exceeded/{resumed}/{via}/{rel}"),
+                sig,
                 format!(
                     "{} unresolved QoS>0 PUBLISH sent on connection {} whose Receive Maximum is {}",
                     inflight, conn, rmax
@@ -1018,15 +1026,13 @@ fn on_client_ack(w: &mut World, conn: usize, typ: u8, id: u16, reason: Option<u8
     let name = codec::type_name_of(typ);
     // optional re-sends of acks owed on an earlier connection come first, in order
     let mut matched = false;
-    if let Some(&(t, i, r)) = w.conns[conn].carry_acks.front() {
-        if (t, i, r.unwrap_or(0)) == got {
-            w.conns[conn].carry_acks.pop_front();
-            w.conns[conn].unflushed_acks.push_back((t, i, r));
-            w.probe("owed_ack_resent_after_reconnect");
-            matched = true;
-        } else {
-            w.conns[conn].carry_acks.clear();
-        }
+    // (each carried acknowledgement is individually optional, but their order is kept)
+    if let Some(pos) = w.conns[conn].carry_acks.iter().position(|&(t, i, r)| (t, i, r.unwrap_or(0)) == got) {
+        let e = w.conns[conn].carry_acks[pos];
+        w.conns[conn].carry_acks.drain(..=pos);
+        w.conns[conn].unflushed_acks.push_back(e);
+        w.probe("owed_ack_resent_after_reconnect");
+        matched = true;
     }
     if !matched {
         match w.conns[conn].owed_acks.pop_front() {
@@ -1154,6 +1160,11 @@ pub fn on_client_consumed(w: &mut World, conn: usize, meta: RxMeta) {
                 if !set.is_empty() {
                     w.probe("resumed_with_inflight");
                 }
+                let pubs = w.reqs.iter().filter(|r| r.epoch == ep && !r.invalidated && r.accept != Accept::NotAccepted && r.kind == ReqKind::Pub && r.qos > 0 && unresolved(r)).count();
+                if pubs > w.conns[conn].receive_max as usize {
+                    w.conns[conn].resume_overcommitted = true;
+                    w.probe("resumed_with_more_in_flight_than_receive_maximum");
+                }
                 w.conns[conn].must_replay = set.into_iter().collect();
                 let carry = std::mem::take(&mut w.carry_over_acks);
                 w.conns[conn].carry_acks = carry;
@@ -1239,13 +1250,18 @@ pub fn on_client_consumed(w: &mut World, conn: usize, meta: RxMeta) {
         }
         RxMeta::Publish { bmsg, dup } => {
             let (qos, id) = (w.bmsgs[bmsg].qos, w.bmsgs[bmsg].id);
+            let pend = format!("{:?}", w.client_qos2_pending);
+            w.log(|| format!("  inbound PUBLISH qos={qos} id={id:?} dup={dup}; client-side pending QoS 2 ids (model): {pend}"));
             if dup {
                 w.probe("inbound_dup_consumed");
             }
             match qos {
                 0 => w.conns[conn].expect_deliver.push_back(bmsg),
                 1 => {
-                    w.conns[conn].owed_acks.push_back((4, id.unwrap(), Some(0)));
+                    // (an identifier the client still holds as an unreleased QoS 2 delivery - only
+                    // possible after the broker lost its session unnoticed - is flagged 0x91)
+                    let reason = if w.client_qos2_pending.contains(&id.unwrap()) { 0x91 } else { 0 };
+                    w.conns[conn].owed_acks.push_back((4, id.unwrap(), Some(reason)));
                     w.conns[conn].expect_deliver.push_back(bmsg);
                 }
                 _ => {
@@ -1253,6 +1269,12 @@ pub fn on_client_consumed(w: &mut World, conn: usize, meta: RxMeta) {
                     if w.client_qos2_pending.contains(&id) {
                         w.conns[conn].owed_acks.push_back((5, id, Some(0)));
                         w.probe("inbound_qos2_duplicate_suppressed");
+                    } else if w.client_qos2_pending.len() >= RECEIVE_MAX_OF_CLIENT {
+                        // The client's advertised Receive Maximum is exhausted (only possible when
+                        // the broker forgot exchanges the client still remembers): refuse, do not
+                        // deliver.
+                        w.conns[conn].owed_acks.push_back((5, id, Some(0x93)));
+                        w.probe("inbound_qos2_receive_maximum_exhausted");
                     } else {
                         w.client_qos2_pending.insert(id);
                         w.conns[conn].owed_acks.push_back((5, id, Some(0)));
@@ -1439,8 +1461,10 @@ pub fn broker_fault(w: &mut World, conn: usize) {
                 send(w, conn, 0, &p, RxMeta::Ack { typ, id, reason: 0 });
             }
         }
-        1 => {
-            // duplicate of an acknowledgement that was already consumed
+        1 if w.cfg.id_burn == 0 => {
+            // duplicate of an acknowledgement that was already consumed (not in runs where
+            // identifiers are reused: the duplicate would then hit a live operation of another
+            // kind, which is a broker protocol violation, not a retransmission)
             let done = w.reqs.iter().rev().find(|r| matches!(r.phase, Phase::Done(0)) && r.id.is_some() && r.epoch == w.epoch && r.qos > 0 && r.kind == ReqKind::Pub);
             if let Some(r) = done {
                 let id = r.id.unwrap();
